@@ -1550,6 +1550,29 @@ pub mod verif_connection {
             self.agent.terminate().await;
         }
     }
+    impl Fixture {
+        /// for sibling hook modules that start the connection differently
+        #[allow(clippy::too_many_arguments)]
+        pub(super) fn verif_assemble(
+            recorder: Arc<Recorder>,
+            target: Arc<dyn AnyDirectUpdate>,
+            link: Link,
+            agent: GateAgent,
+            live_sessions: Arc<Mutex<super::super::unit::LiveSessions>>,
+            connection: tokio::task::JoinHandle<()>,
+            unit: tokio::task::JoinHandle<()>,
+        ) -> Fixture {
+            Fixture {
+                recorder,
+                _target: target,
+                _link: link,
+                agent,
+                live_sessions,
+                connection,
+                unit,
+            }
+        }
+    }
     // ---- C06 (BGP receiver): add-only extensions of the fixture above ----
 
     /// What a connection left behind (see `Fixture::finish`).
@@ -1685,5 +1708,76 @@ pub mod verif_connection {
                 live,
             }
         }
+    }
+}
+
+/// Verification hook (feature `verif-hooks`), add-only: as
+/// `verif_connection::start_with`, with a `bgp-in` filter function handed to
+/// `handle_connection` (what `accept_config` of unit.rs passes when the
+/// loaded script has one). The provenance the filter then sees is the one
+/// `Processor::process` builds from the NEGOTIATED session (the peer's OPEN),
+/// which no scripted session can provide: `NegotiatedConfig` has no public
+/// constructor but `dummy()`.
+#[cfg(feature = "verif-hooks")]
+pub mod verif_connection_filtered {
+    use super::verif_connection::Fixture;
+    use super::verif_session_end::{subscribe, Recorder};
+    use super::*;
+    use crate::comms::AnyDirectUpdate;
+    use std::net::IpAddr;
+
+    pub async fn start_filtered(
+        roto_function: Option<RotoFunc>,
+        stream: TcpStream,
+        peer: IpAddr,
+        ingress_id: ingress::IngressId,
+        remote_asn: Option<u32>,
+    ) -> Fixture {
+        let (gate, mut agent) = Gate::new(0);
+        let recorder = Arc::new(Recorder::default());
+        let target: Arc<dyn AnyDirectUpdate> = recorder.clone();
+        let link = subscribe(&gate, &mut agent, &target).await;
+        let asn = match remote_asn {
+            Some(a) => format!("{a}"),
+            None => "[]".to_string(),
+        };
+        let unit_cfg: BgpTcpIn = toml::from_str(&format!(
+            "listen = \"127.0.0.1:0\"\nmy_asn = 65000\nmy_bgp_id = [1, 1, 1, 1]\n[peers.\"{peer}\"]\nname = \"verif\"\nremote_asn = {asn}\n"
+        ))
+        .expect("unit config");
+        let (remote_net, peer_config) = unit_cfg
+            .peer_configs
+            .get(peer)
+            .map(|(k, c)| (k, c.clone()))
+            .expect("peer is configured");
+        let live_sessions =
+            Arc::new(Mutex::new(std::collections::HashMap::new()));
+        let (cmds_tx, cmds_rx) = mpsc::channel(10 * 10);
+        let connection = tokio::spawn(handle_connection(
+            roto_function,
+            gate.clone(),
+            unit_cfg.clone(),
+            stream,
+            CombinedConfig::new(unit_cfg.clone(), peer_config, remote_net),
+            cmds_tx,
+            cmds_rx,
+            Default::default(),
+            live_sessions.clone(),
+            Default::default(),
+            ingress_id,
+        ));
+        let unit = tokio::spawn(async move {
+            while gate.process().await.is_ok() {}
+            drop(gate);
+        });
+        Fixture::verif_assemble(
+            recorder,
+            target,
+            link,
+            agent,
+            live_sessions,
+            connection,
+            unit,
+        )
     }
 }
